@@ -38,7 +38,7 @@ ASSUMPTIONS = ['errors raised for an options object that lacks current_source_fi
                'hash seeds, orders and histories are sampled, not exhausted',
                'messages and positions of errors are compared between runs, not with the model (the model only has the kind of refusal)']
 CASE_TIMEOUT = 300
-COQ_CHUNK = 40
+COQ_CHUNK = 14
 
 PY = sys.executable
 MODES = ['default', 'fresh-object', 'reused-object', 'reused-class', 'fresh-class', 'bare-object']
@@ -82,7 +82,7 @@ def gen_batch(rng, g, sg, nprog, nproc):
     return {'kind': 'batch', 'programs': programs, 'noise': noise, 'procs': procs}
 
 def gen(rng, tier):
-    nbatch, nprog, nproc, ndecl = (24, 10, 8, 400) if tier == 'quick' else (150, 16, 16, 6000)
+    nbatch, nprog, nproc, ndecl = (24, 10, 8, 300) if tier == 'quick' else (150, 16, 16, 6000)
     g = Gen(rng, special=0.15)
     sg = SGen(rng)
     batches = [gen_batch(rng, g, sg, nprog, nproc) for _ in range(nbatch)]
